@@ -51,6 +51,61 @@ def run_replay(ctx, spec, path):
         bad = m["x"].get("ok") != c["x"].get("ok")
         if m["x"].get("ok") and c["x"].get("ok"):
             bad = [binascii.unhexlify(h).decode("utf-8", "replace") for h in m["x"]["lines_hex"]] != c["x"]["content"].split("\n")
+    elif "json_text" in r:
+        # a JSON transaction list: the reader model (Model/Json.v) against serde, then the code's own round trip
+        from . import props_dsl as PD
+        def tree(v): return PD.tree_of_python(v)
+        text = r["json_text"]; c = run.run_harness([{"id": "x", "op": "json_read", "json_text": text}])["x"]
+        try: vals = json.loads(text, object_pairs_hook=lambda kv: ("__obj__", kv))
+        except Exception: vals = None
+        def conv(v):
+            if isinstance(v, tuple) and v and v[0] == "__obj__": return ("O", [(k, conv(x)) for k, x in v[1]])
+            if isinstance(v, str): return ("S", v)
+            return ("X", v)
+        if isinstance(vals, list):
+            toks = ["L%d" % len(vals)]
+            for v in vals: toks += PD.tree_tokens(conv(v))
+            m = run.run_model([("x", ["CUR " + " ".join(PD.currencies()), "RUN json_read " + " ".join(toks)])])["x"]
+        else: m = {"res": "unmodelled"}
+        print("  model:", m); print("  code :", {k: c.get(k) for k in ("ok", "txns", "error")})
+        bad = (m["res"] == "ok" and (not c.get("ok") or m["txns"] != c["txns"])) or (m["res"] == "reject" and c.get("ok"))
+    elif "txns" in r and isinstance(r["txns"], list) and r["txns"] and isinstance(r["txns"][0], dict) and "kind" in r["txns"][0]:
+        # an API-level transaction list: the DSL and JSON round trips through the code
+        c = run.run_harness([{"id": "x", "op": "roundtrip", "txns": r["txns"], "reports": True}])["x"]
+        if not c.get("ok"): print("  harness:", c); bad = True
+        else:
+            db, jb = c["dsl_back"], c["json_back"]
+            print("  original :", c["orig"]); print("  DSL back :", db.get("txns", db.get("error"))); print("  JSON back:", jb.get("txns", jb.get("error")))
+            zero_label = lambda t: t
+            bad = (not db.get("ok")) or (not jb.get("ok")) or jb.get("txns") != c["orig"] or not jb.get("equal") or c.get("dsl_twice_equal") is False
+            if db.get("ok") and db["txns"] != c["orig"]:
+                # only the currency label of a zero fee or tax may differ
+                for a, b in zip(c["orig"], db["txns"]):
+                    fa, fb = a.split("|"), b.split("|")
+                    if fa != fb and not (fa[:-1] == fb[:-1] and fb[-1] == "GBP" and float(fa[-2]) == 0): bad = True
+                if len(db["txns"]) != len(c["orig"]): bad = True
+    elif "args" in r and "scenario" in r:
+        # a command-layer scenario: the files are rebuilt in a scratch directory and the command is run again
+        import os, shutil, subprocess
+        from . import build, props_robust as PR
+        wd = os.path.join(build.CACHE, "run", "replay-cli"); shutil.rmtree(wd, ignore_errors=True); os.makedirs(os.path.join(wd, "sub.d")); os.makedirs(os.path.join(wd, "fx"))
+        files = {"a.cgt": PR.GOOD_A, "b.cgt": PR.GOOD_B, "c.noeol": PR.GOOD_NOEOL, "bad.cgt": PR.BAD_PARSE, "calcbad.cgt": PR.BAD_CALC, "my.ledger.cgt": PR.GOOD_A, "noext": PR.GOOD_B,
+                 ".hidden": PR.GOOD_B, "sub.d/x.cgt": PR.GOOD_A, "sub.d/noext": PR.GOOD_B, "empty.cgt": b"", "dots.": PR.GOOD_B, "junk.json": b"{not json"}
+        for nm in ("synthetic-transactions.json", "synthetic-awards.json"):
+            q = os.path.join(build.REPO, "tests/schwab", nm)
+            files["s.json" if "transactions" in nm else "aw.json"] = open(q, "rb").read() if os.path.exists(q) else b"{}"
+        for f, c in files.items(): open(os.path.join(wd, f), "wb").write(c)
+        open(os.path.join(wd, "old.txt"), "wb").write(b"OLD")
+        dp = r["scenario"].get("default_pdf_path")
+        if dp: open(os.path.join(wd, dp), "wb").write(b"SENTINEL")
+        before = PR.snapshot(wd); rc, out, err = PR.cli(r["args"], wd); after = PR.snapshot(wd)
+        changed = sorted(k for k, v in after.items() if before.get(k) != v)
+        print("  command: cgt-tool %s\n  exit %s, %d bytes on standard output, files changed %s\n  stderr: %s" % (" ".join(r["args"]), rc, len(out), changed, err[-200:].decode("utf-8", "replace")))
+        mm = r.get("model") or {}
+        m_wr = sorted(binascii.unhexlify(e["write"]).decode() for e in mm.get("effects", []) if "write" in e)
+        print("  model  : %s, writes %s" % ("success" if mm.get("ok") else "failure", m_wr))
+        bad = (rc == 0) != bool(mm.get("ok")) or (rc != 0 and (bool(out.strip()) or bool(changed))) or (rc == 0 and changed != m_wr)
+        shutil.rmtree(wd, ignore_errors=True)
     else:
         print(json.dumps({k: v for k, v in r.items() if k not in ("code", "model")}, indent=1)[:3000])
         print("  (this kind of replay records the failing session / files; re-run ./check %s to re-execute it)" % r.get("property"))
